@@ -1,6 +1,6 @@
 /- Driver section of C07 (the memory limit bounds allocation).
 
-case lines:  full <fmt> <ch> <pr> <w> <h> <lim>   |   rect <fmt> <ch> <pr> <W> <H> <x> <y> <w> <h> <lim>
+case lines:  full <fmt> <ch> <pr> <w> <h> <lim> [<view>]   |   rect <fmt> <ch> <pr> <W> <H> <x> <y> <w> <h> <lim> [<view>]
 run on a fault-free stream that is long enough.
 result: `<res> lim=<limit used> need=<total of the allocation requests of the call> granted=<bytes handed to the allocator>` -/
 import DdsModel.Drv.C06
@@ -8,12 +8,27 @@ namespace Dds.Drv.C07
 open Dds.Drv.C06
 open Dds Dds.Stream
 
+/-- The optional last token names the caller's output view (`c`, `p<N>`, `x<l>:<t>:<r>:<b>`, `cube`; see
+harness/src/c07.rs). No decode path of the model takes the shape of the output into account (the
+specialised whole-image copy reads straight into the rows, every other path goes through its line / row
+buffer), so the token is only checked for well-formedness. `cube` = `Decoder::read_cube_map`: six
+`decode` calls of the face size, each with the whole `memory_limit` (decoder.rs `read_surface` builds a
+fresh `DecodeContext` per surface); the faces have one size, so result, need and peak are those of one face. -/
+def viewOk (call : Call) (tok : String) : Bool :=
+  if tok == "c" then true
+  else if tok == "cube" then (match call with | .full _ _ => true | _ => false)
+  else if tok.startsWith "p" then (nat? (tok.drop 1).toString).isSome
+  else if tok.startsWith "x" then
+    match natsOf (splitColon (tok.drop 1).toString) with
+    | some [_, _, _, _] => true
+    | _ => false
+  else false
+
 def runC07 (line : String) : String :=
   match parseCall (toks line) with
   | none => "bad-case"
   | some (f, c, call, rest) =>
-    match rest with
-    | [lim] =>
+    let go (lim : String) : String :=
       let p := plan f c call
       match limitOf lim (planNeed p) with
       | none => "bad-case"
@@ -21,6 +36,9 @@ def runC07 (line : String) : String :=
         let e : Env := { len := U64 - 1 }
         let (r, st) := run e [] p 0 limit
         s!"{resName r} lim={limit} need={planNeed p} granted={st.calls.foldl (· + ·) 0}"
+    match rest with
+    | [lim] => go lim
+    | [lim, view] => if viewOk call view then go lim else "bad-case"
     | _ => "bad-case"
 
 end Dds.Drv.C07
